@@ -50,9 +50,13 @@ def do_refactor(path):
     name = os.path.basename(path)[:-5]
     wt = scratch(name, path)
     env = dict(os.environ, CARGO_TARGET_DIR="/tmp/selftest/target-%s" % name, CARGO_NET_OFFLINE="true")
-    rc, out = sh("cargo test --offline 2>&1 | grep -E 'test result|error' | head -4", wt, env)
-    tests_ok = out.count("test result: ok") >= 2 and "FAILED" not in out and "error" not in out
-    res = run_checks(wt, ALL)
+    if "--notests" in sys.argv:      # the refactor was shown green before; only the (restricted) checks are re-run
+        tests_ok = True
+    else:
+        rc, out = sh("cargo test --offline 2>&1 | grep -E 'test result|error' | head -4", wt, env)
+        tests_ok = out.count("test result: ok") >= 2 and "FAILED" not in out and "error" not in out
+    props = sys.argv[sys.argv.index("--props") + 1].split(",") if "--props" in sys.argv else ALL
+    res = run_checks(wt, props)
     shutil.rmtree(wt, ignore_errors=True)
     shutil.rmtree("/tmp/selftest/target-%s" % name, ignore_errors=True)
     alarms = {p: r["first"] for p, r in res.items() if r["violation"]}
